@@ -366,6 +366,10 @@ class MessageManager(ClientLike):
         Args:
             module (Module): Module object to remove
         """
+        # already removed (e.g. a log message about the request being handled could not be delivered to it)
+        if module.conn not in self.modules:
+            return
+
         # Drop all subscriptions for this module
         for msg_type in module.subs:
             self.subscriptions[msg_type].discard(module)
